@@ -273,14 +273,14 @@ def tls13_client(sock, deviation, client_chain=b"", client_d=0, other_d=12345, m
         lst = b"" if deviation.startswith("empty_cert") else b"".join(u24(len(c)) + c + u16(0) for c in chain)
         p.send_hs(11, b"\x00" + u24(len(lst)) + lst)
     pre = p.transcript
-    if creq and deviation in ("honest", "cv_wrong_key", "cv_stale_transcript", "empty_cert_with_cv"):
+    if creq and deviation in ("honest", "cv_wrong_key", "cv_stale_transcript", "empty_cert_with_cv", "cv_alg_other"):
         d = client_d if deviation in ("honest", "cv_stale_transcript") else other_d
         P = sm2ref.mul(d, sm2ref.G)
         tr = p.transcript[:-10] if deviation == "cv_stale_transcript" else p.transcript
         tbs = b"\x20" * 64 + b"TLS 1.3, client CertificateVerify\x00" + sm3(tr)
         r_, s_ = sm2ref.sign(d, P, tbs, 0x3333333333333333333333333333333333333333, TLS13_ID)
         sig = derw.seq(derw.dint(r_), derw.dint(s_))
-        p.send_hs(15, u16(0x0708) + u16(len(sig)) + sig)
+        p.send_hs(15, u16(0x0403 if deviation == "cv_alg_other" else 0x0708) + u16(len(sig)) + sig)
     fk = xlabel(chs, b"finished", b"", 32)
     vd = K.hmac(T, "sm3", fk, sm3(p.transcript))
     if deviation == "finished_wrong": vd = bytes([vd[0] ^ 1]) + vd[1:]
@@ -311,12 +311,13 @@ def cbc_server(sock, proto, deviation, chain_der, sign_d, enc_d=0, other_d=54321
     srandom = bytes((i * 13 + 7) & 255 for i in range(32))
     ext = lambda t, d: u16(t) + u16(len(d)) + d
     # the library's TLS 1.2 client insists on its ec_point_formats / supported_groups / signature_algorithms extensions being answered
-    sx = b"" if tlcp else ext(11, b"\x01\x00") + ext(10, u16(2) + u16(41)) + ext(13, u16(2) + u16(0x0708))
+    e_pf, e_gr, e_sa = ext(11, b"\x01\x00"), ext(10, u16(2) + u16(41)), ext(13, u16(2) + u16(0x0708))
+    sx = b"" if tlcp else (e_pf if "only_ecpf" in deviation else e_pf + e_sa if "no_groups" in deviation else e_pf + e_gr if "no_sigalg" in deviation else e_pf + e_gr + e_sa)
     p.send_hs(2, ver + srandom + b"\x00" + (b"\xe0\x13" if tlcp else b"\xe0\x11") + b"\x00" + (u16(len(sx)) + sx if sx else b""))
     certs = split_certs(chain_der)
     lst = b"".join(u24(len(c)) + c for c in certs)
     p.send_hs(11, u24(len(lst)) + lst)
-    d = other_d if deviation == "ske_wrong_key" else sign_d
+    d = other_d if "ske_wrong_key" in deviation else sign_d
     P = sm2ref.mul(d, sm2ref.G)
     cr = bytes(32) if deviation == "ske_stale_random" else crandom
     if tlcp:
@@ -329,7 +330,7 @@ def cbc_server(sock, proto, deviation, chain_der, sign_d, enc_d=0, other_d=54321
     r_, s_ = sm2ref.sign(d, P, tbs, 0x4444444444444444444444444444444444444444)
     sig = derw.seq(derw.dint(r_), derw.dint(s_))
     if deviation != "no_ske":
-        p.send_hs(12, (u16(len(sig)) + sig) if tlcp else (params + u16(0x0708) + u16(len(sig)) + sig))
+        p.send_hs(12, (u16(len(sig)) + sig) if tlcp else (params + u16(0x0403 if "ske_alg_other" in deviation else 0x0708) + u16(len(sig)) + sig))
     p.send_hs(14, b"")
     # client: ClientKeyExchange, CCS, Finished
     r = p.recv_record()
@@ -403,13 +404,13 @@ def tls13_server(sock, deviation, chain_der, sign_d, other_d=54321, mut=None):
         lst = b"".join(u24(len(c)) + c + u16(0) for c in certs)
         p.send_hs(11, b"\x00" + u24(len(lst)) + lst)
     if deviation not in ("no_cv", "no_cert"):
-        d = other_d if deviation == "cv_wrong_key" else sign_d
+        d = other_d if deviation in ("cv_wrong_key", "cv_alg_other") else sign_d
         P = sm2ref.mul(d, sm2ref.G)
         tr = p.transcript[:-7] if deviation == "cv_stale_transcript" else p.transcript
         ctx = b"TLS 1.3, client CertificateVerify\x00" if deviation == "cv_client_context" else b"TLS 1.3, server CertificateVerify\x00"
         r_, s_ = sm2ref.sign(d, P, b"\x20" * 64 + ctx + sm3(tr), 0x4444444444444444444444444444444444444444, TLS13_ID)
         sig = derw.seq(derw.dint(r_), derw.dint(s_))
-        p.send_hs(15, u16(0x0708) + u16(len(sig)) + sig)
+        p.send_hs(15, u16(0x0403 if deviation == "cv_alg_other" else 0x0708) + u16(len(sig)) + sig)
     fk = xlabel(shs, b"finished", b"", 32)
     vd = K.hmac(T, "sm3", fk, sm3(p.transcript))
     if deviation == "finished_wrong": vd = bytes([vd[0] ^ 1]) + vd[1:]
